@@ -170,6 +170,28 @@ CHECKS = {
              'walks are replayed on a real DBusObjectHandler; random streams are validated by TLC.',
         design_ref='DESIGN.md section 3 (C10)',
         note='Trusts: TLC; undispatched calls flagged no-reply are outside the model (property allows 0 or 1 reply).'),
+    'C13': dict(
+        technique='TLA+ spec Bus.tla (name table: queues, flags, reply codes, signals) model-checked by TLC with action '
+                  'properties; graph replayed on a real Bus; recorded histories validated by TLC',
+        text='TLC explores all histories of Hello / RequestName (8 flag combinations) / ReleaseName / GetNameOwner / '
+             'ListQueuedOwners / disconnect for 2 clients with a reconnection (reply soundness, replacement only if agreed, '
+             'succession, released-is-gone, no dead or duplicate queue entries) and the invariants for 3 clients; every edge and '
+             'random walks are replayed on a real Bus with one BusProtocol per connection, comparing every reply and signal each '
+             'client receives; random histories with up to 4 (6) clients on 2 names are validated by TLC.',
+        design_ref='DESIGN.md section 3 (C13)',
+        note='Trusts: TLC; a replaced owner leaves the queue (as code); the table is observed through replies and signals only.'),
+    'C14': dict(
+        technique='TLA+ spec Bus.tla (unique names, routing, sender stamping, rules, broadcast) model-checked by TLC; graph '
+                  'replayed on a real Bus; recorded histories validated by TLC',
+        text='TLC explores all histories of connects (incl. a non-Hello first call), disconnects, name changes, unicast messages '
+             'of all four types to well-known and unique names with forged senders, calls and signals to the bus itself, '
+             'AddMatch / RemoveMatch and broadcasts for 2 clients with a reconnection (unique names fresh and never reused, '
+             'nothing delivered to dead connections); every edge and random walks are replayed on a real Bus comparing, field by '
+             'field, everything each connection receives; random histories with up to 4 clients, 2 names, 6 rules and 3 signals '
+             'are validated by TLC.',
+        design_ref='DESIGN.md section 3 (C14)',
+        note='Trusts: TLC; one action per message the bus reads (its read order is the delivery interleaving); broadcasts are '
+             'compared copy for copy (one per matching rule), stronger than the set of connections the property names.'),
 }
 
 NOT_YET = 'check not built yet (build in progress; see DESIGN.md section 6)'
